@@ -35,6 +35,7 @@ def run_engine(schema, base_url: str, run: dict) -> dict:
     config = EngineConfig(execution=ExecutionConfig(
         phases=[PhaseName.from_str(p) for p in run["phases"]],
         seed=run["seed"], workers_num=run["workers"], hypothesis_settings=settings,
+        unique_inputs=bool(run.get("unique_inputs")), continue_on_failure=bool(run.get("continue_on_failure")), max_failures=run.get("max_failures"),
         generation=GenerationConfig(modes=[GenerationMode(m) for m in run["modes"]],
                                     # a user-supplied collection of methods is a SET (as the CLI builds it): built here, under this process's hash seed
                                     unexpected_methods=set(run["unexpected_methods"]) if run.get("unexpected_methods") else None),
@@ -69,6 +70,47 @@ def run_engine(schema, base_url: str, run: dict) -> dict:
     return {"tag": run["tag"], "failures": sorted(failures), "events": n}
 
 
+def run_cli(schema_path: str, base_url: str, run: dict) -> dict:
+    """The CLI front door: `schemathesis run <file> --url ... --seed N ...` executed in this process (so that the two harness-side
+    normalisations apply); one phase per invocation, so the whole log of the run belongs to that phase."""
+    import re
+
+    from click.testing import CliRunner
+    from schemathesis.cli import schemathesis as cli
+
+    assert len(run["phases"]) == 1
+    phase = {"examples": "EXAMPLES", "coverage": "COVERAGE", "fuzzing": "FUZZING", "stateful": "STATEFUL_TESTING"}[run["phases"][0]]
+    args = ["run", schema_path, "--url", base_url, "--phases", run["phases"][0], "--seed", str(run["seed"]), "-n", str(run["max_examples"]),
+            "-w", str(run["workers"]), "-m", "all" if len(run["modes"]) == 2 else run["modes"][0], "--suppress-health-check", "all",
+            "--generation-database", "none", "--no-color", "-c", "not_a_server_error"]
+    if run.get("unexpected_methods"):
+        args += ["--experimental", "coverage-phase", "--experimental-coverage-unexpected-methods", ",".join(run["unexpected_methods"])]
+    if run.get("unique_inputs"):
+        args.append("--generation-unique-inputs")
+    if run.get("continue_on_failure"):
+        args.append("--continue-on-failure")
+    if run.get("max_failures"):
+        args += ["--max-failures", str(run["max_failures"])]
+    marker(base_url, event="run-start", tag=run["tag"])
+    marker(base_url, event="phase-start", tag=run["tag"], phase=phase)
+    result = CliRunner().invoke(cli, args)
+    marker(base_url, event="phase-end", tag=run["tag"], phase=phase)
+    marker(base_url, event="run-end", tag=run["tag"])
+    if result.exit_code not in (0, 1):
+        raise RuntimeError("CLI exit code %s: %s %r" % (result.exit_code, result.output[-800:], result.exception))
+    # what the CLI reports as failures: the headers of the failure sections and the failure titles (no ids, no timings, no addresses)
+    failures = set()
+    section = ""
+    for line in result.output.splitlines():
+        m = re.match(r"^_+ (.+?) _+$", line)
+        if m:
+            section = m.group(1)
+        elif re.match(r"^- [A-Z]", line):
+            failures.add(json.dumps([phase, section, "cli", line[2:].strip(), "", "", "", 0]))
+    failures.add(json.dumps([phase, "", "cli", "exit code %d" % result.exit_code, "", "", "", 0]))
+    return {"tag": run["tag"], "failures": sorted(failures), "events": 0}
+
+
 def neutralise_local_constants() -> bool:
     """Environment normalisation (harness side, nothing in /repo changes).
 
@@ -94,6 +136,12 @@ def neutralise_local_constants() -> bool:
 
 
 def main(argv: list[str]) -> int:
+    import os
+
+    if os.environ.get("COVERAGE_PROCESS_START"):
+        import coverage
+
+        coverage.process_startup()
     job = json.load(open(argv[1]))
     import schemathesis
 
@@ -108,6 +156,9 @@ def main(argv: list[str]) -> int:
             schema = schemathesis.openapi.from_path(job["schema"]["path"])
         else:
             schema = schemathesis.openapi.from_dict(job["schema"]["raw"])
+        if run.get("front") == "cli":
+            out.append(run_cli(job["schema"]["path"], job["base_url"], run))
+            continue
         schema.configure(base_url=job["base_url"])
         out.append(run_engine(schema, job["base_url"], run))
     sys.stdout.write(json.dumps({"runs": out}))
